@@ -118,16 +118,16 @@ func (k *knode) alpha() float64 { return float64(k.spec.Alpha) }
 func (k *knode) exact() bool    { return k.spec.Role == "exact" }
 
 type kmsg struct {
-	form    string // bin | binomit | pb | pbstream | foreign
-	data    []byte
-	model   *refmodel.RefSketch
-	spec    engine.Node // producer
-	mkey    string
-	exact   bool // produced by the exact-summary variant
-	snap    *skSnap
-	sentAt  int
+	form       string // bin | binomit | pb | pbstream | foreign
+	data       []byte
+	model      *refmodel.RefSketch
+	spec       engine.Node // producer
+	mkey       string
+	exact      bool // produced by the exact-summary variant
+	snap       *skSnap
+	sentAt     int
 	deliveries int
-	parts   int // number of concatenated encodings
+	parts      int // number of concatenated encodings
 	hasMapping bool
 }
 
@@ -154,11 +154,11 @@ type fleetHook interface {
 
 type noHook struct{}
 
-func (noHook) event(*fleetExec, engine.Event) bool                                             { return false }
-func (noHook) after(*fleetExec, engine.Event, *knode)                                          {}
-func (noHook) decoded(*fleetExec, engine.Event, *knode, *kmsg, sk, *refmodel.RefSketch)        {}
-func (noHook) query(*fleetExec, engine.Event, *knode)                                          {}
-func (noHook) quiesce(*fleetExec)                                                              {}
+func (noHook) event(*fleetExec, engine.Event) bool                                      { return false }
+func (noHook) after(*fleetExec, engine.Event, *knode)                                   {}
+func (noHook) decoded(*fleetExec, engine.Event, *knode, *kmsg, sk, *refmodel.RefSketch) {}
+func (noHook) query(*fleetExec, engine.Event, *knode)                                   {}
+func (noHook) quiesce(*fleetExec)                                                       {}
 
 var fleetHooks = map[string]func() fleetHook{}
 
@@ -172,6 +172,7 @@ func ExecFleet(p *engine.Plan, st *engine.Stats) *engine.Violation {
 	}
 	setMapOrder(p.Cfg("maporder", "asc"), p.Seed^uint64(p.Run)*0x9E3779B97F4A7C15)
 	defer setMapOrder("asc", 0)
+	setSpanBudgets(p, 1<<13, 1<<16)
 	return x.run(func() {
 		for i := range p.Nodes {
 			n := p.Nodes[i]
@@ -269,9 +270,10 @@ func (x *fleetExec) sigFor(e engine.Event) string {
 
 // route computes where the mapping sends a value: side +1/-1/0 and the index.
 func route(m mapping.IndexMapping, v float64) (side, index int) {
-	if v > m.MinIndexableValue() {
+	// documented: only values strictly closer to zero than MinIndexableValue go to the zero bucket
+	if v >= m.MinIndexableValue() {
 		return 1, m.Index(v)
-	} else if v < -m.MinIndexableValue() {
+	} else if v <= -m.MinIndexableValue() {
 		return -1, m.Index(-v)
 	}
 	return 0, 0
@@ -511,7 +513,7 @@ func (x *fleetExec) send(e engine.Event, nd *knode, sig string) {
 		for i := range backing {
 			backing[i] = 0xA5
 		}
-		buf := backing[:pre : pre+spare]
+		buf := backing[: pre : pre+spare]
 		x.lib("Encode", sig, func() { nd.real.Encode(&buf, e.S == "binomit") })
 		if x.prop == "C06" {
 			x.st.Oracle("append-only")
